@@ -77,6 +77,9 @@ def apply(objs, st):
         else:
             r = fsr.transformWrenchFrame(a, a.frame_applied.copy(), new)
         objs[t] = r
+    elif op == "changeFrameFrom":
+        new, old = frame_tm(st["f"]), frame_tm(st["old"])
+        objs[t] = a.changeFrame(new, old) if st["how"] == "method" else fsr.transformWrenchFrame(a, old, new)
     elif op == "addsub":
         objs[t] = (a + b) if st["sg"] == 1 else (a - b)
     elif op == "vecop":
@@ -245,7 +248,7 @@ def run(ctx):
         if not behs:
             ctx.machinery("no histories exported by " + name)
         total += len(behs)
-        nontriv += sum(1 for b in behs if any(st["op"] in ("changeFrame", "addsub") for st in b["h"]))
+        nontriv += sum(1 for b in behs if any(st["op"] in ("changeFrame", "changeFrameFrom", "addsub") for st in b["h"]))
         jobs = [(b, start) for b in behs]
         chunks = [jobs[i:i + 500] for i in range(0, len(jobs), 500)]
         with ctx.timed("replay-" + name):
